@@ -24,6 +24,10 @@ package crypto
 //       fresh real objects).
 // State canon = the four real counters + the reference high-water marks + the
 // counters of the filtered run: the complete mutable state, so merging is exact.
+//
+// The histories above call Decrypt one after the other. Deliveries that OVERLAP on one
+// receiving end (2-3 threads, every interleaving within a preemption bound under the
+// controlled scheduler) are the schedule part: decrypt_sched_test.go.
 
 import (
 	"encoding/binary"
@@ -194,7 +198,7 @@ func c01Enabled(w *c01World, maxEnc int, thorough bool) []string {
 
 func TestVerif_C01(t *testing.T) {
 	r := vmc.New("C01", "model_checking")
-	r.Rule = "BFS over histories of encI/encR and adversarial deliveries (genuine in any order, duplicates, reflection, bit flips per region, forged counters incl. 2^63 and 2^64-1, short inputs, foreign-session ciphertext) on two real SessionKey ends; a case is non-trivial when a delivery is accepted or when a rejected delivery precedes a later delivery; distinct = distinct (event kind, decision, real counter state)"
+	r.Rule = "BFS over histories of encI/encR and adversarial deliveries (genuine in any order, duplicates, reflection, bit flips per region, forged counters incl. 2^63 and 2^64-1, short inputs, foreign-session ciphertext) on two real SessionKey ends; a case is non-trivial when a delivery is accepted or when a rejected delivery precedes a later delivery; distinct = distinct (event kind, decision, real counter state); schedule part: all interleavings (preemption-bounded, every statement of Decrypt / buildRecvNonce and every mutex operation a scheduling point) of 2-3 threads delivering frames to one receiving SessionKey at the same time (same frame twice / three times, frames k and k+1, a delayed old frame and newer ones, a replay next to the following frame, forged / tampered / reflected next to genuine), then every frame once more after the run; non-trivial there = executions in which Decrypt calls of different threads overlapped, distinct by scenario and call/return order"
 	r.Assume("ChaCha20-Poly1305 and HKDF from golang.org/x/crypto are trusted; forging a valid tag is outside the adversary alphabet")
 	r.Assume("counter wrap after 2^64 genuine messages is outside any feasible history")
 	maxEnc := vmc.Pick(r, 2, 3)
@@ -311,11 +315,17 @@ func TestVerif_C01(t *testing.T) {
 	var hist struct {
 		History []string `json:"history"`
 	}
-	if r.ReplayInto(&hist) {
+	var srp c01sReplay
+	if r.ReplayInto(&srp) && srp.Sched {
+		// artefact of the schedule part (decrypt_sched_test.go)
+		c01SchedReplay(r, srp)
+	} else if r.ReplayInto(&hist) {
 		for i := 1; i <= len(hist.History); i++ {
 			checkHist(hist.History[:i])
 		}
 	} else {
+		// schedule part first (small): overlapping Decrypt calls on one receiving end
+		c01SchedPart(r)
 		st := vmc.BFS(r, checkHist, vmc.BFSOpts{Workers: 16})
 		r.Add("states", st.States)
 		r.Add("transitions", st.Transitions)
